@@ -67,8 +67,9 @@ Print Assumptions C01_history_independent.
 
 (* one call  sym->eval( *this)  at ip_, from a state whose valid memo entries
    are sound: returns the denotation of the tree at ip_, keeps the memo sound,
-   never overwrites a valid entry, and restores ip_ (unless an exception or
-   undefined behaviour ends the call) *)
+   never overwrites a valid entry, restores ip_ (unless an exception or
+   undefined behaviour ends the call), and validates entries only at loci
+   reached through arguments that were asked for *)
 Theorem C01_memo_sound : forall src g ex n st t,
   tree_of n g (ip st) = Some t ->
   cache_sound (vars_of src ex) g st -> example st = ex ->
@@ -77,7 +78,9 @@ Theorem C01_memo_sound : forall src g ex n st t,
   cache_sound (vars_of src ex) g (snd r) /\
   example (snd r) = ex /\
   cache_ext st (snd r) /\
-  (is_val (fst r) -> ip (snd r) = ip st).
+  (is_val (fst r) -> ip (snd r) = ip st) /\
+  (forall lb, e_valid (cache (snd r) lb) = true ->
+     e_valid (cache st lb) = true \/ needed (vars_of src ex) g (ip st) lb).
 Proof. exact eval_sym_sound. Qed.
 Print Assumptions C01_memo_sound.
 
@@ -141,6 +144,15 @@ Theorem C01_unasked_argument_irrelevant : forall vars s par kids j u,
 Proof. exact den_unasked_replace. Qed.
 Print Assumptions C01_unasked_argument_irrelevant.
 
+(* operationally: a run from l evaluates (memoises) only loci reached from l
+   through arguments that the symbols on the way asked for *)
+Theorem C01_only_needed_arguments_evaluated : forall src g n l t st,
+  tree_of n g l = Some t ->
+  forall lb, e_valid (cache (snd (run_locus_fuel src g n l st)) lb) = true ->
+    needed (vars_of src (example st)) g l lb.
+Proof. exact only_needed_evaluated. Qed.
+Print Assumptions C01_only_needed_arguments_evaluated.
+
 (* ... and so for the machine *)
 Theorem C01_unasked_argument_irrelevant_run : forall g1 g2 s par kids j u,
   wf_genome g1 -> wf_genome g2 ->
@@ -191,6 +203,14 @@ Example C01_sound_state_with_valid_entries : forall lm,
   let st := snd (run_ex true g demo_ex1 (init_state g)) in
   cache_sound (nth_error demo_ex1) g st /\ valid_entries g st <> [].
 Proof. exact demo_sound_state. Qed.
+(* on the second example the root takes the other branch: the gene at [3,1]
+   (SIFE) is active in the tree but never evaluated, its sibling [4,1] is *)
+Example C01_untaken_branch_not_evaluated : forall lm,
+  let g := demo_genome lm in
+  let st := snd (run_ex true g demo_ex2 (init_state g)) in
+  e_valid (cache st {| l_index := 3; l_cat := 1 |}) = false /\
+  e_valid (cache st {| l_index := 4; l_cat := 1 |}) = true.
+Proof. exact demo_untaken_not_evaluated. Qed.
 (* the model keeps the exceptional outcome, and the state an exception leaves
    behind (ip_ not restored) is among the prior states quantified over *)
 Example C01_model_sees_exception : forall lm,
